@@ -4,7 +4,7 @@
 # scripts, directed witnesses and seeded generators through implementation and
 # extracted model, (4) compares projected observables, evaluates the property's
 # monitors on the implementation's own observations, (5) decides.
-import json, os, re, sys
+import json, os, re, sys, time
 from vcheck import *
 import monitors as M
 
@@ -565,9 +565,57 @@ def script_of(case):
             s.append("s delayend")
         elif k == "CL_CANCEL":
             s.append("s cancel")
+        elif k == "RET_SHUTDOWN" and s and s[-1] == "s cancel":
+            s[-1] = "s shutdown"
+        elif k == "CL_HOLD":
+            s.append("s hold %s" % f[3][1:])
+        elif k == "CL_RELEASE":
+            s.append("s release %s" % f[3][1:])
         elif k == "CL_WAIT":
             s.append("s wait")
     return s
+
+
+def shrink_frames(ctx, fam, script, signature, monitor, relevant_kinds, budget=24, seconds=90):
+    """greedy minimisation of a failing scenario: drop one step at a time (never the header, bar lines, adds or the
+    final wait) while a re-run still fails with the same signature.  Scheduling-dependent failures may not shrink."""
+    t0 = time.time()
+    cur = list(script)
+
+    def fails(lines):
+        sc = write_script(ctx, "shrink.txt", lines)
+        run = ctx.run_family(fam, 0, extra=sc, tag=".shrink%d" % int((time.time() - t0) * 1000), model=True, model_family="frames",
+                             env={"MPBH_HANG_MS": "4000"}, expected_to_fail=True)
+        if run["rc"] != 0:
+            m = re.search(r"hang: ([\w-]+)", run["log"])
+            got = "panic" if ("panic" in run["log"] or "fatal error" in run["log"]) else ("hang-" + m.group(1) if m else "frames-run-failed")
+            return got == signature
+        cases = split_traces(os.path.join(run["dir"], "cases.txt"))
+        verd = frames_verdicts(run)
+        for c in cases:
+            mon = monitor(c, frames_of(c)) if monitor else None
+            if mon and mon[1] == signature:
+                return True
+            v = verd.get(c["k"])
+            if v and v[0] != "ACCEPT" and not mon:
+                kind = reject_kind(v[1]) if v[0] == "REJECT" else v[0]
+                if "trace-rejected-at-" + kind == signature:
+                    return True
+        return False
+
+    changed = True
+    while changed and budget > 0 and time.time() - t0 < seconds:
+        changed = False
+        for i in range(len(cur) - 1, 0, -1):
+            l = cur[i]
+            if not l.startswith("s ") or l.startswith("s add") or l.startswith("s wait") or budget <= 0 or time.time() - t0 > seconds:
+                continue
+            cand = cur[:i] + cur[i + 1:]
+            budget -= 1
+            if fails(cand):
+                cur = cand
+                changed = True
+    return cur
 
 
 def frames_of(case):
@@ -665,8 +713,16 @@ def frames_check(ctx, relevant_kinds, monitor, n_quick, n_thorough, deps, nontri
             mon = monitor(c, fr) if monitor and len(c["trace"]) <= 30000 else None
             if mon and mon[1] not in sigs:
                 sigs.add(mon[1])
+                full = c["hdr"] + script_of(c) + ["end"]
+                small = full
+                if not ctx.replay and len(sigs) <= 2:
+                    try:
+                        small = shrink_frames(ctx, run["family"], full, mon[1], monitor, relevant_kinds)
+                    except Exception as e:  # shrinking is a convenience: never let it hide the violation
+                        ctx.note("shrink failed: %r" % e)
                 ctx.add_violation(mon[0], mon[1], {"family": "frames", "run_seed": run["seed"], "n": run["n"], "k": c["k"],
-                                                   "script": c["hdr"] + script_of(c) + ["end"], "trace_tail": c["trace"][-60:]})
+                                                   "script": small, "script_before_shrinking": full if small != full else None,
+                                                   "trace_tail": c["trace"][-60:]})
                 found = True
             v = verdicts.get(c["k"])
             if v and v[0] != "ACCEPT" and not mon:
